@@ -324,9 +324,14 @@ pub struct DatumGen<'a> {
     pub allow_raw_invalid: bool,
 }
 
+/// Character names: the ones the parser accepts today and the ones other
+/// Schemes (R7RS, MIT, Guile, Racket) use. A text is only used for the truncation
+/// sweep if the parser accepts it, so names it does not know cost nothing and a
+/// name it learns later is covered from that day on.
 const CHAR_NAMES: &[&str] = &[
     "nul", "alarm", "backspace", "tab", "linefeed", "newline", "vtab", "page", "return", "esc",
-    "space", "delete",
+    "space", "delete", "null", "escape", "altmode", "rubout", "del", "bel", "bell", "nl", "lf", "cr", "ht", "sp",
+    "formfeed", "ff", "bs", "vt",
 ];
 
 impl<'a> DatumGen<'a> {
